@@ -189,6 +189,7 @@ CHECKS = {
         "runs": [
             {"entry": M + "/sources/env.HarnessC11NoPrefix", "pkgs": ENVP, "must_reach": ["c11-end", "c11-error"]},
             {"entry": M + "/sources/env.HarnessC11Names", "pkgs": ENVP, "must_reach": ["c11-names-end"]},
+            {"entry": M + "/sources/env.HarnessC11PrefixTwice", "pkgs": ENVP, "must_reach": ["c11-prefix-twice-end"]},
             {"entry": M + "/sources/env.HarnessC11Gen2", "pkgs": ENVP, "must_reach": ["c11-gen-end", "c11-gen-error"]},
             {"entry": M + "/sources/env.HarnessC11Gen3", "pkgs": ENVP, "must_reach": ["c11-gen-end", "c11-gen-error"], "tiers": ["thorough"]},
             {"entry": M + "/sources/env.HarnessC11Prefix", "pkgs": ENVP, "must_reach": ["c11-end", "c11-error"], "tiers": ["thorough"]},
@@ -270,6 +271,7 @@ CHECKS = {
             {"entry": M + "/sources/flag/flaghelper.HarnessC15HelperInts", "pkgs": HELP, "must_reach": ["c15-helper-ints-end"]},
             {"entry": M + "/sources/flag/flaghelper.HarnessC15HelperStrings1", "pkgs": HELP, "must_reach": ["c15-helper-strings-end"], "loopcap": 400},
             {"entry": M + "/sources/flag/flaghelper.HarnessC15HelperEmpty", "pkgs": HELP, "must_reach": ["c15-helper-empty-end"], "loopcap": 400},
+            {"entry": M + "/sources/flag/flaghelper.HarnessC15HelperComplex", "pkgs": HELP, "must_reach": ["c15-helper-complex-end"], "loopcap": 400},
             {"entry": M + "/sources/flag/flaghelper.HarnessC15HelperStrings2", "pkgs": HELP, "must_reach": ["c15-helper-strings-end"], "loopcap": 400, "tiers": ["thorough"]},
         ],
         "bounds": {"quick": "11 integral-slice instantiations and 12 parse.String integer types x 5 literal styles x paddings; value = any int64/uint64; 1-2 elements; float/complex canonical values incl. infinities (concrete), empty strings/keys/slices, integer literals inside maps (concrete probes)",
@@ -344,7 +346,7 @@ CHECKS = {
             "design_ref": "DESIGN.md §4 C20",
         },
         "runs": [
-            {"entry": M + "/sourcewrap.HarnessC20TransformStatic", "pkgs": SW, "must_reach": ["c20-static-end"], "instrument": [M, M + "/sourcewrap"], "validate": 0},
+            {"entry": M + "/sourcewrap.HarnessC20TransformStatic", "pkgs": SW, "must_reach": ["c20-static-end", "c20-static-untranslatable"], "instrument": [M, M + "/sourcewrap"], "validate": 0},
             {"entry": M + "/sourcewrap.HarnessC20TransformWatch", "pkgs": SW, "must_reach": ["c20-watch-end"], "instrument": [M, M + "/sourcewrap"], "validate": 0},
             {"entry": M + "/sourcewrap.HarnessC20Decoder", "pkgs": SW, "must_reach": ["c20-decoder-end"]},
             {"entry": M + "/sourcewrap.HarnessC20Blank", "pkgs": SW, "must_reach": ["c20-blank-end", "c20-blank-done"], "instrument": [M, M + "/sourcewrap"], "validate": 0},
